@@ -1,5 +1,6 @@
 """C17 -- variable-length size prefix is a bijection with the RFC 8724 widths."""
 from core import rng_for, mk, bits_of, L, R, Buffer, randbits
+from core import mkmap, given_items
 from schc_run import Batch, obs_bits, with_timeout, parse_model_bits, case_compress, case_decompress
 from schc_util import ref_size_prefix, tb, n_rule
 from gens import synth_pdesc
@@ -88,9 +89,23 @@ def run(rep, tier, seed):
         rule = RuleDescriptor(id=mk(randbits(rnd, rnd.randint(1, 16)), rnd.choice([L, R])), field_descriptors=fds)
         payload = randbits(rnd, rnd.choice([0, 3, 8, 21]))
         pd = synth_pdesc(rule, vals, payload)
+        if kind == 'vs' and i % 2 == 0:
+            # this descriptor is compressed a second time below with an MSB/LSB rule: its field values are left-padded, as the parsers
+            # produce them (the LSB action documents that it reads them so)
+            from microschc.rfc8724 import FieldDescriptor, PacketDescriptor
+            pd = PacketDescriptor(direction=DI.UP, fields=[FieldDescriptor(id=rf.id, value=mk(v_), position=0) for rf, v_ in zip(rule.field_descriptors, vals)], payload=mk(payload))
         o = case_compress(b, pd, rule, None, klass='field-compress:' + kind)
         if o[0] == 'OK':
             case_decompress(b, o[1], rule, None, klass='field-roundtrip:' + kind, expect=''.join(vals) + payload, side=rnd.choice([L, R]))
+        if kind == 'vs' and i % 2 == 0:
+            # the same descriptor compressed a second time with an MSB/LSB rule on the same field (what BEST does when both rules match)
+            x = rnd.choice([0, 1, n // 2, max(0, n - 1)])
+            fds2 = list(fds)
+            fds2[-1] = RuleFieldDescriptor('X:v', 0, 0, DI.BIDIRECTIONAL, mk(v[:x], rnd.choice([L, R])), MO.MSB, CDA.LSB)
+            rule2 = RuleDescriptor(id=mk(randbits(rnd, rnd.randint(1, 16)), rnd.choice([L, R])), field_descriptors=fds2)
+            o = case_compress(b, pd, rule2, None, klass='field-compress-again:lsb')
+            if o[0] == 'OK':
+                case_decompress(b, o[1], rule2, None, klass='field-roundtrip-again:lsb', expect=''.join(vals) + payload, side=rnd.choice([L, R]))
     # the announcement as the LAST residue of the packet (nothing sent after it: empty payload, following fields elided) at every
     # size around the width changes: a decoder that reads ahead of the announcement sees fewer bits than it expects
     for n in [0, 1, 13, 14, 15, 16, 17, 27, 28, 29, 253, 254, 255, 256, 257, 300]:
@@ -110,7 +125,7 @@ def run(rep, tier, seed):
                 elif trail == 'map0':
                     from microschc.rfc8724 import MatchMapping
                     t = randbits(rnd, 6)
-                    fds.append(RuleFieldDescriptor('X:t', 6, 0, DI.BIDIRECTIONAL, MatchMapping({mk(t): mk('')}), MO.MATCH_MAPPING, CDA.MAPPING_SENT))
+                    fds.append(RuleFieldDescriptor('X:t', 6, 0, DI.BIDIRECTIONAL, mkmap({mk(t): mk('')}), MO.MATCH_MAPPING, CDA.MAPPING_SENT))
                     vals.append(t)
                 rule = RuleDescriptor(id=mk(randbits(rnd, rnd.randint(1, 9)), rnd.choice([L, R])), field_descriptors=fds)
                 pd = synth_pdesc(rule, vals, '')
